@@ -68,6 +68,14 @@ func ParseOne(reader *bufio.Reader) (*ChangelogEntry, error) {
 	var header string
 	for {
 		line, err := reader.ReadString('\n')
+		if strings.HasPrefix(line, "#") {
+			/* comment lines are ignored (deb-changelog(5)); trimmed
+			 * changelogs end in two of them */
+			if err != nil {
+				return nil, err
+			}
+			continue
+		}
 		if err == io.EOF && trim(line) != "" {
 			/* the file ends inside an entry */
 			return nil, io.ErrUnexpectedEOF
